@@ -22,7 +22,7 @@
    and safe by the kernel (Exec.LocalProofs, vm_compute over a genuinely
    finite domain: Local.lstate with counters saturating at 2). *)
 From Coq Require Import ZArith List Bool.
-From RP Require Import Exec.Model Exec.Oracle Exec.Local Exec.LocalProofs Exec.Proj Exec.Proofs Exec.ExamProofs Exec.PollProofs Exec.HandlerProofs.
+From RP Require Import Exec.Model Exec.Oracle Exec.Local Exec.LocalProofs Exec.Proj Exec.Proofs Exec.ExamProofs Exec.PollProofs Exec.HandlerProofs Exec.KillProofs.
 Import ListNotations.
 Open Scope Z_scope.
 
@@ -91,6 +91,23 @@ Theorem C07_handler_covers_clause_holds_in_model :
     run (init sc) sched = (s, tr) -> ok_handler_covers sc tr (quiescent s) = true.
 Proof. exact model_handler_covers. Qed.
 Print Assumptions C07_handler_covers_clause_holds_in_model.
+
+(* the kill reaches the running process, cancel_task does not wait for a natural
+   end, bystanders and the executor's own process group are not signalled
+   (clauses kill_reaches_running_process, cancel_does_not_wait_for_natural_end,
+   bystanders_not_signalled; see Props/C08.v) *)
+Theorem C07_kill_clauses_hold_in_model :
+  forall (sc : scenario) (sched : list choice) (s : state) (tr : list stepobs),
+    run (init sc) sched = (s, tr) ->
+    ok_kill_reaches (delivered sc) tr = true /\ ok_no_natural_wait (delivered sc) tr = true.
+Proof. exact model_kill_reaches. Qed.
+Print Assumptions C07_kill_clauses_hold_in_model.
+
+Theorem C07_not_signalled_clause_holds_in_model :
+  forall (sc : scenario) (sched : list choice) (s : state) (tr : list stepobs),
+    NoDup (delivered sc) -> run (init sc) sched = (s, tr) -> ok_not_signalled sc tr = true.
+Proof. exact model_not_signalled. Qed.
+Print Assumptions C07_not_signalled_clause_holds_in_model.
 
 (* the ownership argument: every run stays, for every delivered uid, inside the
    kernel-checked set of local states on which `Local.safe` holds (whoever
